@@ -301,7 +301,10 @@ def write_evidence(pid, tier, seed, t0, meta, results, replays, canary_report, i
         "samples": samples,
         "states": max(1, npaths),
         "transitions": max(1, ndec + npaths),
-        "traces_validated_against_impl": len([r for r in replays if r["reproduced"]]) + int(meta.get("stub_validation_cases", 0)),
+        # symbolic paths whose model was re-run with floats on the unstubbed real code with every obligation holding numerically
+        # (symx.eqcheck._validate_concretely), plus solver counterexamples reproduced on the real code
+        "traces_validated_against_impl": sum(r.get("validated", 0) for r in ok) + len([r for r in replays if r["reproduced"]]),
+        "validation_mismatches": [m for r in ok for m in r.get("validation_mismatches", [])][:40],
         "obligations": len(obl),
         "discharged": verd.get("unsat", 0),
         "verdicts": verd,
